@@ -133,7 +133,8 @@ class MediaQuery(cssutils.util._NewBase):  # cssutils.util.Base):
                     name='media_type',
                     match=lambda t, v: t == PreDef.types.IDENT
                     and normalize(v) in self.MEDIA_TYPES,
-                    stopIfNoMoreMatch=True,
+                    # hand unconsumed tokens back only to an enclosing MediaList
+                    stopIfNoMoreMatch=self._partof,
                     toStore='media_type',
                 ),
                 Sequence(
